@@ -209,12 +209,12 @@ impl<'a> Walk<'a> {
         let mech = self.sim.cfg.mech.clone();
         let mut plans: Vec<Plan> = Vec::new();
         if faulty && self.sim.cfg.fingerprint && mech != Mech::None && rng.chance(1, 3) {
-            plans.push(Plan::FpFault(*rng.pick(&[Fp::Absent, Fp::Bad, Fp::NotLast])));
+            plans.push(Plan::FpFault(*rng.pick(&[Fp::Absent, Fp::Bad, Fp::NotLast, Fp::NotLastWholeLen, Fp::DoubleFirstGood, Fp::DoubleFirstWholeLen])));
         }
         match mech {
             Mech::None => {
                 if faulty && self.sim.cfg.fingerprint {
-                    plans.push(Plan::FpFault(*rng.pick(&[Fp::Absent, Fp::Bad, Fp::NotLast])));
+                    plans.push(Plan::FpFault(*rng.pick(&[Fp::Absent, Fp::Bad, Fp::NotLast, Fp::NotLastWholeLen, Fp::DoubleFirstGood, Fp::DoubleFirstWholeLen])));
                     if rng.bool() {
                         plans.push(Plan::Good { error: None });
                     }
@@ -569,7 +569,7 @@ impl<'a> Walk<'a> {
                     Some(i) => {
                         let t = &self.sim.txs[*i];
                         let (integ, key) = self.resp.good_auth(self.st_prefer_sha);
-                        let fp = if self.sim.cfg.fingerprint { *rng.pick(&[Fp::Absent, Fp::Bad]) } else { Fp::Bad };
+                        let fp = if self.sim.cfg.fingerprint { *rng.pick(&[Fp::Absent, Fp::Bad, Fp::NotLastWholeLen, Fp::DoubleFirstWholeLen]) } else { Fp::Bad };
                         (
                             "fingerprint-fault",
                             crate::server::craft(&crate::server::Reply { class: 2, method: t.method, txid: t.id, error_code: None, extra: vec![], integ, key, fp }),
